@@ -549,6 +549,15 @@ def cases(tier, seed):
                             base = dict(n=n, d=d, field=field, form=form, solver=solver, prior=pick(priors, i), kind="mixed", rank=rank, seed=sd + i)
                             for cl in (clauses if thorough or not slow else clauses[:1] + clauses[2:5]):
                                 add(cl, base, icl("min_error", form, field, "dm", solver))
+            # ---- a state that is never prepared (exact zero prior, not in the last position): the value is 0 and the labelled operators attain it
+            if sd == seeds[0]:
+                for field in fields:
+                    for n, d in ((3, 2), (3, 3), (4, 3)):
+                        for pk in ("zero-first", "zero-middle"):
+                            i += 1
+                            base = dict(n=n, d=d, field=field, form="dual", solver=solver, rep=pick(reps, i), prior=pk, kind="pure", seed=sd + i, phases=True)
+                            for cl in EX_GENERIC:
+                                add(cl, base, icl("min_error", "dual", field, "zero-prior", solver))
             # ---- two states
             for field in fields:
                 for form in forms:
